@@ -59,7 +59,7 @@ run C12 chempy/util/parsing.py '            if items[1] not in result:
             is_decimal = "." in count or "e" in count
             amount = float(count) if is_decimal else int(count)
             result[key] = result.get(key, 0) + amount' "_parse_multiplicity: unpacked, named intermediate values"
-run C17 chempy/kinetics/integrated.py 'return prod + minor * (1 - be.exp(-major * kf * t))' 'return prod + minor - minor / be.exp(major * kf * t)' "pseudo_irrev: algebraically equivalent form"
+run C17 chempy/kinetics/integrated.py 'return prod + minor * (1 - be.exp(-major * kf * t))' 'return prod + minor - minor * be.exp(-(major * kf) * t)' "pseudo_irrev: algebraically equivalent form (decaying exponential kept: dividing by the growing one overflows under math for k*t > 709, which C17 reports since round 3)"
 run C17 chempy/kinetics/integrated.py 'return 1 / (1 / initial_C + 2 * kf * (t - t0))' 'return initial_C / (1 + 2 * kf * initial_C * (t - t0))' "dimerization_irrev: algebraically equivalent form"
 run C18 chempy/electrolytes.py '    return -A * z ** 2 * (sqrt_I_I0 / (1 + sqrt_I_I0) + C * I_I0)' '    zz = z * z
     return -(A * zz * sqrt_I_I0 / (sqrt_I_I0 + 1) + A * zz * C * I_I0)' "davies_log_gamma: distributed product"
